@@ -509,11 +509,25 @@ def World.onDelivered (w : World) (toks : List String) : World :=
       w.fail "C12" "served" s!"peer {q}: the instance no longer takes messages from its direct channel (an earlier message stopped the goroutine that serves it)") else
   if arg toks "quiesce" != "true" then w.fail "C11" "quiesce" s!"peer {q} did not become quiescent after a delivered message" else w
 
+/-- the whole instance of `p` went down: its stores of the OTHER databases reload (unlimited) too -/
+def World.reloadOtherDbs (w : World) (p : Nat) : World :=
+  let cur := w.curDb
+  let w := (List.range w.nDb).foldl (fun w k =>
+    if k == cur then w else
+    let w := w.useDb k
+    if !(w.stores.any (fun (x : Nat × Store) => x.1 == w.key p)) then w else
+    let s := (w.store p).reopened
+    match s.load w.acl w.fetchAll (-1) with
+    | .ok s' => { w.setStore p s' with resync := w.key p :: w.resync, lastObs := w.lastObs.filter (·.1 != w.key p) }
+    | .error _ => w) w
+  w.useDb cur
+
 def World.onRestarted (w : World) (toks : List String) : World :=
   let p := peerNum (toks.getD 1 "")
   let r := toks.getD 2 ""
   let amount : Int := match w.pending.getD 2 "" with | "" => -1 | a => parseInt a
   let w := if arg toks "identity" != "true" then w.fail "C05" "identity" s!"peer {p} has a different identity after restart" else w
+  let w := if w.nDb > 1 then w.reloadOtherDbs p else w
   let s := (w.store p).reopened
   -- the whole persisted log: everything reachable from the cached heads
   let full := match s.load w.acl w.fetchAll (-1) with
@@ -556,8 +570,8 @@ def World.step (w : World) (line : String) : World :=
     let h := toks.getD 1 ""
     let w := if h == "failget" then { w with faulty := true } else if h == "okget" then { w with faulty := false } else w
     if h == "usedb" then w.useDb (natOr (toks.getD 2 "") 0)
-    else if h == "exchangeall" || h == "exchangeall-done" then { w with lastOpDb := none }   -- touches every shared database
-    else if ["put", "del", "add", "docput", "docdel", "docputall", "docputbatch", "sync", "pubdeliver", "exchange", "restart", "inject", "syncasync"].contains h then
+    else if h == "exchangeall" || h == "exchangeall-done" || h == "restart" then { w with lastOpDb := none }   -- touches every database of the peer
+    else if ["put", "del", "add", "docput", "docdel", "docputall", "docputbatch", "sync", "pubdeliver", "exchange", "inject", "syncasync"].contains h then
       { w with lastOpDb := some w.curDb }
     else w
   | "opened" =>
